@@ -19,7 +19,7 @@ func init() {
 		Explanation: "Decides, for every type implementing lnwire.Message and for the onion failure messages, that Encode and Decode touch the same struct fields, in the same order for the positional part, with writer widths that match the width the reader derives from the field type; that the message-type and failure-code registries are total and round-trip (constant -> constructor -> MsgType()/Code()); that WriteMessage refuses payloads above the 65535-byte bound; that every input-derived allocation or copy bound in the decoders is bounded by a 16-bit/8-bit length, by a constant comparison or by the remaining message size; that the TLV stream decoder rejects non-increasing types and non-minimal BigSize encodings and that every primitive decoder checks the record length; and that peer-facing decoding uses the P2P-bounded TLV stream variants.",
 		NotDecided: []string{
 			"total absence of panics on arbitrary bytes", "that decode-then-encode is a byte-identical fixpoint for every input",
-			"preservation of unknown TLV records through re-encoding", "value equality after a round trip",
+			"preservation of unknown TLV records through re-encoding beyond the choice of the re-packing helper (the helper's arithmetic on record maps is not decided)", "value equality after a round trip",
 		},
 		Assumptions: append([]string{"the tlv package analysed is /repo/tlv (its own module); the root module compiles against the tagged copy of it in the module cache"}, commonAssumptions...),
 		Engines:     "CODEC (trace agreement over all message types), REG, GUARD, BOUND, WHO",
@@ -212,6 +212,7 @@ func runC10(r *an.Run) {
 	runC10b(r)
 	runC10c(r)
 	runC10alias(r)
+	unknownRecordsSurvive(r)
 	runC10d(r)
 }
 
